@@ -180,9 +180,20 @@ impl<'a> Interp<'a> {
                 })
             }
         };
+        let wb = self.world.clone();
         let hb = std::thread::spawn(move || {
             set_current_op(op_b);
+            // no parking on this thread, but the points it passes are recorded (admission)
+            let wlog = wb.clone();
+            let _ = deadpool::verif::set_hook(Some(Box::new(move |label| {
+                let mut w = wlog.w();
+                w.log.push(Ev::Point { op: op_b, label });
+                if label == "get.permit" {
+                    w.admitted.push(op_b);
+                }
+            })));
             let r = std::panic::catch_unwind(std::panic::AssertUnwindSafe(job));
+            let _ = deadpool::verif::set_hook(None);
             let _ = b_tx.send(r.map_err(classify_panic));
         });
         // give B time to run into the lock (or to finish if it does not need it)
